@@ -17,6 +17,7 @@ fn leaves() -> Vec<Expr> {
         a(Action::FPrint("/dev/stdout".into())),
         a(Action::FPrintf("/dev/stderr".into(), vec![Fmt::Field(Field::Name), nl()])),
         a(Action::FPrint("-".into())),
+        a(Action::FPrint("/dev/null".into())),
         a(Action::FPrint(f())),
         a(Action::FPrint0(f())),
         a(Action::FPrintf(f(), vec![Fmt::Field(Field::Name), nl()])),
@@ -41,7 +42,7 @@ fn leaves() -> Vec<Expr> {
 
 fn core() -> Vec<Expr> {
     let l = leaves();
-    [8usize, 9, 11, 10, 19, 21].iter().map(|i| l[*i].clone()).collect()
+    [9usize, 10, 12, 11, 20, 22].iter().map(|i| l[*i].clone()).collect()
 }
 
 fn unary(op: u8, e: Expr) -> Expr {
@@ -60,6 +61,9 @@ fn binary(op: u8, a: Expr, b: Expr) -> Expr {
 }
 
 pub fn check(tree: &Expr, acc: &mut Acc) {
+    if tree.depth() > 20 {
+        speclib::report::enter_case(|| format!("helper query on a tree of depth {} with {} leaves: {}…", tree.depth(), tree.leaves(), tree.show().chars().take(120).collect::<String>()));
+    }
     acc.states += 1;
     acc.transitions += 1;
     acc.validated += 1;
@@ -226,7 +230,7 @@ pub fn run(ctx: &Ctx) -> i32 {
     // deep paths: every (op, side) path of length <= L with each interesting leaf at the bottom
     let plen = ctx.tier.pick(5, 6);
     let steps: Vec<(u8, u8)> = vec![(0, 0), (1, 0), (2, 0), (2, 1), (3, 0), (3, 1), (4, 0), (4, 1)];
-    let interesting = [ls[8].clone(), ls[9].clone(), ls[10].clone(), ls[19].clone(), ls[1].clone()];
+    let interesting = [ls[9].clone(), ls[10].clone(), ls[11].clone(), ls[20].clone(), ls[1].clone()];
     let filler = Expr::Test(Test::True);
     for len in 1..=plen {
         let total = (steps.len() as u64).pow(len as u32) * interesting.len() as u64;
@@ -266,6 +270,55 @@ pub fn run(ctx: &Ctx) -> i32 {
             check(&under_path(leaf, &filler, &path), acc);
         }
     }));
+    // the same node queried before and after it is changed in place (through the public Rc), and
+    // large trees dropped and rebuilt in a loop (allocations get reused)
+    {
+        use lipe_find_parser::ast::{Expression, Operator};
+        use std::rc::Rc;
+        let mut seq = Acc::new();
+        let big = |leaf: &Expr, n: usize| {
+            let mut e = leaf.clone();
+            for k in 0..n {
+                e = if k % 2 == 0 { Expr::or(e, Expr::Test(Test::Name(format!("n{k}")))) } else { Expr::and(Expr::Test(Test::True), e) };
+            }
+            e
+        };
+        let leafs = [ls[9].clone(), ls[10].clone(), ls[20].clone(), ls[1].clone(), ls[12].clone()];
+        for round in 0..200usize {
+            for n in [3usize, 40, 70, 100] {
+                let a = &leafs[round % leafs.len()];
+                let b = &leafs[(round + 1 + n) % leafs.len()];
+                // query a tree, drop it, build another of the same shape, query again
+                let t1 = big(a, n);
+                check(&t1, &mut seq);
+                drop(t1);
+                let t2 = big(b, n);
+                check(&t2, &mut seq);
+                // edit in place: replace the root operator of the real tree and ask again
+                if let Some(mut real) = conv::expr_to_real(&t2) {
+                    let before = (real.action(), real.complex_frames());
+                    let replacement_spec = big(a, 2);
+                    if let (Expression::Operator(rc), Some(repl)) = (&mut real, conv::expr_to_real(&replacement_spec)) {
+                        if let Some(op) = Rc::get_mut(rc) {
+                            *op = Operator::Not(repl);
+                            let want = (Expr::not(replacement_spec.clone()).has_action(), Expr::not(replacement_spec.clone()).needs_framing());
+                            let got = (real.action(), real.complex_frames());
+                            seq.states += 1;
+                            seq.transitions += 1;
+                            if got != want {
+                                seq.violate(Violation::new(
+                                    "C19:answer-does-not-follow-an-in-place-change",
+                                    format!("a tree of {} leaves answered {before:?}; after its root was replaced in place by {} the helpers answer {got:?}, the tree says {want:?}", t2.leaves(), Expr::not(replacement_spec).show().chars().take(80).collect::<String>()),
+                                    json!({"kind": "in-place", "round": round, "n": n}),
+                                ));
+                            }
+                        }
+                    }
+                }
+            }
+        }
+        acc = acc.merge(seq);
+    }
     acc.sample(json!({"tree": under_path(&interesting[1], &filler, &[(2, 1), (0, 0), (4, 0)]).show()}));
     finish(
         ctx,
